@@ -2,6 +2,8 @@
 package main
 
 import (
+	"google.golang.org/protobuf/proto"
+	"github.com/pentops/j5/gen/j5/ext/v1/ext_j5pb"
 	"fmt"
 	"sort"
 	"strings"
@@ -79,7 +81,7 @@ func populate(m protoreflect.Message, depth int) {
 		return
 	}
 	oneofDone := map[string]bool{}
-	wrapper := j5schema.IsOneofWrapper(md)
+	wrapper := refIsWrapper(md)
 	for i := 0; i < md.Fields().Len(); i++ {
 		fd := md.Fields().Get(i)
 		if wrapper && i > 0 {
@@ -316,6 +318,28 @@ func checkSet(t *vk.T, fdp *descriptorpb.FileDescriptorProto, coord string) {
 			schema, err := cache.Schema(md)
 			t.Step()
 			if err != nil {
+				// history: asking the same cache again must fail again, not hand out a half-built schema,
+				// and the objects built on a failed type must return errors rather than crash
+				again, err2 := cache.Schema(md)
+				t.Step()
+				if err2 == nil {
+					t.Violation("second-lookup-succeeds-after-failure|"+scope, fmt.Sprintf("SchemaCache.Schema(%s) fails the first time (%v) and returns (%v, nil) the second time", md.FullName(), err, again), coord, nil, nil)
+				}
+				refl := j5reflect.New()
+				for k := 0; k < 2; k++ {
+					root, rerr := refl.NewRoot(dynamicpb.NewMessage(md))
+					t.Step()
+					if rerr == nil && root == nil {
+						t.Violation("newroot-nil-nil-after-failure|"+scope, fmt.Sprintf("NewRoot(%s) returned (nil, nil) on call %d for a type whose schema does not build (%v)", md.FullName(), k+1, err), coord, nil, nil)
+						break
+					}
+				}
+				failCodec := j5codec.NewCodec(j5codec.WithResolver(resolver{types}))
+				for k := 0; k < 2; k++ {
+					_, _ = failCodec.ProtoToJSON(dynamicpb.NewMessage(md))
+					_ = failCodec.JSONToProto([]byte(`{}`), dynamicpb.NewMessage(md))
+					t.Steps(2)
+				}
 				continue
 			}
 			if schema == nil {
@@ -492,4 +516,39 @@ func run(r *vk.Runner) {
 			t.Sample("structure " + name)
 		})
 	}
+}
+
+// refIsWrapper is the harness's own reading of the documented rule (the code under test must not
+// be its own oracle): a message is a oneof wrapper when it says so in (j5.ext.v1.message), or when
+// it consists of exactly one real oneof named "type", without oneof options, whose members are all
+// messages, and of nothing else.
+func refIsWrapper(md protoreflect.MessageDescriptor) bool {
+	if mo, ok := proto.GetExtension(md.Options(), ext_j5pb.E_Message).(*ext_j5pb.MessageOptions); ok && mo != nil {
+		if mo.IsOneofWrapper {
+			return true
+		}
+		switch mo.Type.(type) {
+		case *ext_j5pb.MessageOptions_Oneof:
+			return true
+		case *ext_j5pb.MessageOptions_Object:
+			return false
+		}
+	}
+	if md.Oneofs().Len() != 1 {
+		return false
+	}
+	oo := md.Oneofs().Get(0)
+	if oo.IsSynthetic() || oo.Name() != "type" {
+		return false
+	}
+	if x, ok := proto.GetExtension(oo.Options(), ext_j5pb.E_Oneof).(*ext_j5pb.OneofOptions); ok && x != nil {
+		return false
+	}
+	for i := 0; i < md.Fields().Len(); i++ {
+		f := md.Fields().Get(i)
+		if f.ContainingOneof() != oo || f.Kind() != protoreflect.MessageKind {
+			return false
+		}
+	}
+	return md.Fields().Len() > 0
 }
